@@ -1,6 +1,7 @@
 package main
 
 import (
+	"go/token"
 	"go/types"
 	"fmt"
 	"strings"
@@ -250,6 +251,44 @@ func runC06(c *Ctx) {
 			c.Check(ok2, "O4", "RET", funcKey(vv)+": rejects when running - victims < minAvailable", instrPos(ret), d, "the elastic-minimum check no longer compares (running − victims) with minAvailable")
 		}
 		c.Floor("O4", "RET reject returns", n, 1)
+		// the three quantities of the comparison belong to the same sub group: every per-sub-group count that is
+		// stored under a sub-group key is read from the sub group with that very key
+		nk := 0
+		for _, in := range instrsIn(vv, func(in ssa.Instruction) bool { _, ok := in.(*ssa.MapUpdate); return ok }) {
+			mu := in.(*ssa.MapUpdate)
+			vt := termOf(mu.Value)
+			if !vt.contains(func(x *Term) bool { return x.Op == "call" && x.Fn != nil && strings.HasPrefix(x.Fn.Name(), "GetNum") }) {
+				continue // a counter increment, not a reading of the job's state
+			}
+			nk++
+			key := termOf(mu.Key)
+			same := vt.contains(func(x *Term) bool {
+				return x.Op == "lookup" && isCallNamed(x.Args[0], "GetSubGroups") && sameTerm(x.Args[1], key)
+			})
+			c.Check(same, "O4", "PROV", funcKey(vv)+": the running count stored for a sub group is that sub group's own count", instrPos(in), trunc(vt.String(), 120),
+				"the number of running pods recorded for a sub group is read from "+trunc(vt.String(), 140)+" rather than from the sub group with the same name: the pods of the other sub groups mask the loss and a protected elastic workload can be shrunk below a sub group's minAvailable")
+		}
+		c.Floor("O4", "PROV per-sub-group readings", nk, 1)
+		for _, in := range instrsIn(vv, func(in ssa.Instruction) bool {
+			bo, ok := in.(*ssa.BinOp)
+			return ok && (bo.Op == token.GTR || bo.Op == token.LSS) && termOf(bo).contains(func(x *Term) bool { return isCallNamed(x, "GetMinAvailable") })
+		}) {
+			bo := in.(*ssa.BinOp)
+			var keys []string
+			termOf(bo).walk(func(x *Term) bool {
+				if x.Op == "lookup" {
+					keys = append(keys, x.Args[1].String())
+				}
+				return true
+			})
+			allSame := len(keys) >= 2
+			for _, k := range keys {
+				if k != keys[0] {
+					allSame = false
+				}
+			}
+			c.Check(allSame, "O4", "PROV", funcKey(vv)+": minAvailable, running and victims are compared for one and the same sub group", instrPos(in), fmt.Sprintf("%d lookups under one key", len(keys)), "the minimum-size comparison mixes quantities of different sub groups: "+trunc(termOf(bo).String(), 200))
+		}
 	}
 	// each action gives the solver the matching validator; a solution counts only behind it
 	newSolver := p.Func(pkgSolvers, "", "NewJobsSolver")
@@ -440,6 +479,63 @@ func runC06(c *Ctx) {
 	c.Floor("O8", "DOM common-prefix scans in the min-runtime resolver", nscan, 1)
 
 	// ---- O6: consolidation accepts only scenarios in which no victim stays evicted
+	// ---- O9: the start time that min-runtime protection relies on is not lost while the informer lags: a pending
+	// pod-group update is reported as "equal to the snapshot" (and may therefore be dropped) only when the
+	// snapshot already carries the in-flight last-start and stale timestamps
+	if sp := c.Anchor("O9", "pkg/scheduler/cache/status_updater", "defaultStatusUpdater", "syncPodGroup"); sp != nil {
+		e := newAbsExec(p)
+		e.maxInline = 0 // the comparison of the scheduling conditions is one opaque result
+		leaves, err := e.explore(sp, nil, paramSyms(sp, [2]int{0, 0}), newAbsState())
+		construct := funcKey(sp) + ": 'equal' only when the snapshot has both in-flight timestamps"
+		if err != nil {
+			c.Undec("O9", "ABS", construct, sp.Pos(), err.Error())
+		} else {
+			ok, n, why := true, 0, ""
+			for _, lf := range leaves {
+				v := lf.Vals[0]
+				// can this leaf return "equalStatuses"? Either the constant, or the comparison result left untouched
+				// on a path where it equals the constant
+				mayBeEqual := false
+				if v.T != nil && strings.Contains(v.T.String(), "equalStatuses") {
+					mayBeEqual = true
+				}
+				if v.T != nil && v.T.Op == "call" {
+					for k, rel := range lf.St.ord {
+						pp := lf.St.pairs[k]
+						if (strings.Contains(pp[0], "equalStatuses") || strings.Contains(pp[1], "equalStatuses")) && (pp[0] == v.T.String() || pp[1] == v.T.String()) && rel == relEQ {
+							mayBeEqual = true
+						}
+					}
+				}
+				if !mayBeEqual {
+					continue
+				}
+				n++
+				for _, key := range []string{"LastStartTimeStamp", "StalePodgroupTimeStamp", "last-start", "stale"} {
+					_ = key
+				}
+				same := 0
+				for k, rel := range lf.St.ord {
+					pp := lf.St.pairs[k]
+					if strings.HasPrefix(pp[0], "lookup(") && strings.HasPrefix(pp[1], "lookup(") && strings.Contains(pp[0], ".Annotations") && strings.Contains(pp[1], ".Annotations") {
+						if rel == relEQ {
+							same++
+						} else {
+							ok, why = false, lf.St.String()
+						}
+					}
+				}
+				if same < 2 {
+					ok = false
+					if why == "" {
+						why = "fewer than two annotation comparisons decide: " + lf.St.String()
+					}
+				}
+			}
+			c.Check(ok && n > 0, "O9", "ABS", construct, sp.Pos(), fmt.Sprintf("%d abstract inputs return 'equal', all with both annotations equal", n),
+				"a pending pod-group update can be reported equal to the snapshot although the snapshot lacks its last-start (or stale) timestamp ("+trunc(why, 300)+"): the applied update is dropped while the informer still lags, the job's LastStartTimestamp is nil in the next cycle and a workload that started seconds ago loses its min-runtime protection")
+		}
+	}
 	if apr := c.Anchor("O6", pkgConsol, "", "allPodsReallocated"); apr != nil {
 		rel, _ := p.ConstInt(pkgPodStatus, "Releasing")
 		// every "return true" is after the loops; inside the loops a Releasing task returns false
